@@ -153,7 +153,7 @@ class World:
         rng = self.rng
         files = self.all_paths(("file",))
         dirs = [os.path.join(self.src, it) for it in self.items] + self.all_paths(("dir",))
-        k = rng.randrange(14)
+        k = rng.randrange(16)
         if k == 0 and files:
             p = rng.choice(files)
             st = os.lstat(p)
@@ -214,6 +214,9 @@ class World:
             self.remember(newd)
             os.utime(p, ns=(st.st_atime_ns, st.st_mtime_ns))
             return "same identity, new size"
+        if k in (14, 15) and files:
+            if self.rewrite_same_second(rng.choice(files)):
+                return "rewritten in place, same size, mtime differs only below the second"
         if k in (12, 13) and files:
             if self.rename_over(rng.choice(files)):
                 return "renamed over, same size and mtime"
@@ -229,6 +232,21 @@ class World:
                 os.link(p, q)
                 return "hard link"
         return "none"
+
+    def rewrite_same_second(self, p):
+        """the file is rewritten in place (same inode, same size, other bytes); its new mtime lies in the same second as the old one"""
+        st = os.lstat(p)
+        data = open(p, "rb").read()
+        if not data:
+            return False
+        newd = bytes((b + 3) % 256 for b in data)
+        with open(p, "r+b") as f:
+            f.write(newd)
+        self.remember(newd)
+        sec, ns = divmod(st.st_mtime_ns, 10 ** 9)
+        ns2 = (ns + 400000000) % 10 ** 9 if ns != (ns + 400000000) % 10 ** 9 else (ns + 1) % 10 ** 9
+        os.utime(p, ns=(st.st_atime_ns, sec * 10 ** 9 + ns2))
+        return True
 
     def rename_over(self, p):
         """another file of the same size and the same mtime (to the nanosecond) is renamed over p: only the inode tells them apart"""
